@@ -1068,7 +1068,10 @@ class Interp:
         raise Unsupported("call of non-callable %r" % (f,))
 
     def instantiate(self, cls, args, kwargs):
-        o = Obj(cls)
+        alloc = self.st.ghost.get("alloc_hook")
+        o = alloc(cls) if alloc is not None else None
+        if o is None:
+            o = Obj(cls)
         init = self.find_method(cls, "__init__")
         if init is not None:
             self.call(init, [o] + list(args), kwargs)
@@ -1452,7 +1455,12 @@ class Interp:
         return out
 
     def e_Set(self, e, env, module):
-        return set(self.eval_list(e.elts, env, module))
+        vals = self.eval_list(e.elts, env, module)
+        if any(isinstance(v, SR) for v in vals):
+            from .heap import SymSet
+
+            return SymSet.of(vals)
+        return set(vals)
 
     def e_Dict(self, e, env, module):
         d = {}
@@ -1652,6 +1660,13 @@ class Interp:
             return h(self, attr)
         if base is None:
             raise AttributeError("'NoneType' object has no attribute %r" % attr)
+        import numpy as np
+
+        if isinstance(base, np.ndarray) and base.dtype == object and attr in ("any", "all"):
+            # one symbolic boolean for the whole array instead of one fork per element
+            elems = [(x != 0) if isinstance(x, SR) else (x if isinstance(x, SB) else bool(x)) for x in base.reshape(-1)]
+            fn = self.builtins["any" if attr == "any" else "all"]
+            return lambda axis=None: fn(elems)
         return getattr(base, attr)
 
     def setattr(self, base, attr, v):
